@@ -8,6 +8,61 @@ COMMON_TB = [
 ]
 
 PROPS = {
+    "C11": {
+        "proof_modules": ["GrolProofs.Props.C11"],
+        "theorems": ["Grol.Map.C11.run_refines", "Grol.Map.C11.observations", "Grol.Map.C11.history_independent", "Grol.Map.C11.get_set",
+                     "Grol.Map.C11.get_delete", "Grol.Map.C11.set_comm", "Grol.Map.C11.grol", "Grol.Map.bsearch_eq", "Grol.Map.smallGet_eq",
+                     "Grol.Map.specGet_spec", "Grol.Map.set_spec", "Grol.Map.delete_spec", "Grol.Map.append_spec", "Grol.Map.literal_spec",
+                     "Grol.Map.rest_spec", "Grol.Map.range_spec", "Grol.Map.sorted_insert", "Grol.Map.lookup_insert", "Grol.Map.lookup_erase",
+                     "Grol.Map.insert_comm", "Grol.Obj.cmpD_PW"],
+        "suites": ["mapops"],
+        "rule": "mapops suite: every case is a whole history (literal construction, m[k]=v, del(m[k]), m+{..}, m=rest(m), m=m[lo:hi]) run "
+                "twice, through the object.Map API (mode A) and as grol source statements (mode S); observation after the last operation: "
+                "len, representation (SmallMap/*BigMap), the stored pairs in order, lookup of every universe key, Inspect(), first(), and == "
+                "both ways against the map rebuilt from the pairs in reverse order. Families: all ordered selections of <=3 of 7 mixed-type "
+                "keys (1, 1.0, 1.5, \"a\", true, nil, [1]; 1 and 1.0 are the same key) and all orders of two 5-key sets as literals; BFS of "
+                "the reachable state space (state = representation + pairs) from 5 start literals over ~45 operations per state (14 sets, 7 "
+                "deletes, rest, up to 11 slices, 7 merges), quick: first 350 states, thorough: the whole space (fixpoint reached, ~1.9k states); "
+                "40 (quick) / 400 (thorough) seeded random histories of 20-60 operations over a 20-key universe, every prefix a case. "
+                "The statement compares every observation except the representation with the reference finite map (Spec) run on the same "
+                "history. non-trivial = non-empty history.",
+        "trusted_base": COMMON_TB + ["modelled: object/object.go SmallMap/BigMap get, Get, Set, Delete, Len, First, Rest, Range, Append, mapElements, NewMapSize, "
+                                     "slices.BinarySearchFunc, slices.Insert; eval.go evalMapLiteral, the map cases of index assignment, deleteMapEntry, "
+                                     "evalMapInfixExpression (+), evalIndexRangeExpression (in-range bounds); key comparison = the C12 model of Cmp "
+                                     "(cmpD: Cmp itself on data values)",
+                                     "not modelled: Inspect() of arbitrary values (the driver has a formatter for nil, booleans, ints, printable strings, "
+                                     "arrays, maps and floats that are multiples of 1/8; otherwise the printed form is taken from the implementation), "
+                                     "aliasing of *BigMap storage between variables (single-owner histories only; C06), out-of-range slice bounds (C07), "
+                                     "keys that are not data values (RETURN/MACRO objects)"],
+        "assumptions": ["single-owner use of map values (each history owns its map)"],
+        "exhaustive_note": "thorough tier: BFS reaches the fixpoint of the 7-key x 2-value state space",
+    },
+    "C12": {
+        "proof_modules": ["GrolProofs.Props.C12"],
+        "theorems": ["Grol.Obj.C12.no_panic", "Grol.Obj.C12.refl", "Grol.Obj.C12.antisymm", "Grol.Obj.C12.total", "Grol.Obj.C12.trans",
+                     "Grol.Obj.C12.lt_trans", "Grol.Obj.C12.operators", "Grol.Obj.C12.equals_cmp", "Grol.Obj.C12.equals_symm",
+                     "Grol.Obj.C12.equals_trans", "Grol.Obj.C12.cmp_congr", "Grol.Obj.C12.min_max",
+                     "Grol.Obj.C12.legacy_int_float_not_transitive", "Grol.Obj.cmpI_PW", "Grol.Obj.cmp_eq", "Grol.Obj.cmpIntFloat_eq"],
+        "suites": ["cmp"],
+        "rule": "cmp suite: a curated universe of 127 values (ints around +-2^53, 2^63-2^10.., min/max int64; floats -0, +0, three NaN patterns, "
+                "+-Inf, 2^53, 2^53+2, +-2^63, subnormals, 0.1, x.5 near 2^52; nil, booleans, strings incl. empty/NUL/non-UTF8, errors, "
+                "functions, extensions, quotes, registers, RETURN/MACRO objects (panic branches), empty/equal-length/nested/large arrays and maps) "
+                "plus 40 (quick) / 150 (thorough) seeded random nested values. V lines: the value evaluated from its grol source renders "
+                "like the value built through the object API. P lines: every unordered pair of the universe (and sampled pairs with "
+                "random values): object.Cmp both ways and on itself, object.Equals both ways and against an independently built copy, "
+                "and `< <= > >= == !=` both ways plus min/max evaluated from grol source. T lines: triples (quick: a quarter of all "
+                "numeric triples + 60k random triples + all triples inside every window of 4 neighbours in the implementation's own order; thorough: all ~2.1M triples of the universe + 300k random + windows) with Cmp/Equals on "
+                "(a,b),(b,c),(a,c). The driver recomputes everything with the model and evaluates the order axioms on the "
+                "implementation's results. non-trivial = all operands are data values (no RETURN/MACRO object).",
+        "trusted_base": COMMON_TB + ["modelled: object/object.go Cmp, cmpIntFloat, Equals, TypeEqual, IsIntType, areIntFloat, Value (registers), "
+                                     "Go's cmp.Compare on int64/string/float64, math.Trunc and int64(float64) on the exact value of a binary64; "
+                                     "eval/eval.go evalInfixExpression (== != < <= > >=); extensions min/max incl. applyExtension's expansion of a last array argument",
+                                     "not modelled: Reference objects (Eval dereferences them before operators and containers see them) and "
+                                     "Value()'s 'Too many references'/'Self reference' panics; the evaluator that builds values from source "
+                                     "(V lines compare its result with the API-built value)"],
+        "assumptions": ["IEEE-754 binary64 semantics of Go's float64 comparison, math.Trunc and int64() conversion (the model computes them exactly from the bit pattern)"],
+        "exhaustive_note": "all pairs of the curated universe; thorough tier: all triples",
+    },
     "C20": {
         "proof_modules": ["GrolProofs.Props.C20"],
         "theorems": ["Grol.Trie.C20.contains_iff", "Grol.Trie.C20.prefixAll_spec", "Grol.Trie.C20.complete_sound",
